@@ -370,8 +370,10 @@ ProbeProg(mutseq, forks) ==
     I("mine", "", "", FALSE), I("export", "", "", TRUE),
     I("verify", "none", "w1", FALSE), I("verify", "none", "w2", FALSE), I("verify", "none", "w3", FALSE)>>
   \o [k \in 1..Len(mutseq) |-> I("verify", mutseq[k], "w3", FALSE)]
-  \o (IF forks THEN <<I("fork", "", "", FALSE), I("verify", "none", "w3", FALSE), I("verify", "exc_cb", "w3", FALSE),
-                      I("remine", "", "", FALSE), I("verify", "none", "w2", FALSE), I("verify", "amt_plus", "w2", FALSE)>>
+  \o (IF forks THEN <<I("fork", "", "", FALSE), I("export", "", "", TRUE),       \* the sender refreshes against the new branch
+                      I("verify", "none", "w3", FALSE), I("verify", "exc_cb", "w3", FALSE),
+                      I("remine", "", "", FALSE), I("export", "", "", TRUE),
+                      I("verify", "none", "w2", FALSE), I("verify", "amt_plus", "w2", FALSE)>>
       ELSE <<>>)
 
 \* ============================================================= ProofSound
